@@ -1034,6 +1034,21 @@ impl RequestResponseProtocol {
     /// Start [`RequestResponseProtocol`] event loop.
     pub async fn run(mut self) {
         tracing::debug!(target: LOG_TARGET, "starting request-response event loop");
+        #[cfg(litep2p_verif)]
+        if crate::verif::config_notes_enabled() {
+            crate::verif::note_config(
+                self.service.local_peer_id(),
+                "rr",
+                format!(
+                    "{} to={} maxin={} cap={}/{}",
+                    self.protocol,
+                    self.timeout.as_millis(),
+                    self.max_concurrent_inbound_requests.map(|n| n.to_string()).unwrap_or_else(|| "-".to_string()),
+                    self.event_tx.max_capacity(),
+                    self.command_rx.max_capacity(),
+                ),
+            );
+        }
 
         loop {
             #[cfg(litep2p_verif)]
